@@ -60,9 +60,24 @@ def generate(R: Draw, tier: str) -> dict:
     lib, rs = schemas.get(sref)
     g = docgen(rs)
     doc = g.doc(R, R.weighted([("tiny", 1), ("small", 5), ("medium", 3)]))
+    focus = None
+    if rs.mark_names and R.bool(0.15):
+        # neighbouring text pieces whose marks have the same types and different attributes (link a | link b): a
+        # deletion or open replace that brings such pieces side by side must keep them apart
+        from .c13 import _removal_focus
+
+        f = _removal_focus(R, g, rs, doc)
+        if f is not None:
+            doc, focus = f
     T = P.tokens_of(doc["c"], rs.leaf_types)
     dd = S.depth_table(T)
     kind = R.weighted([("other", 6), ("same", 2), ("reinsert", 2)])
+    if focus is not None and R.bool(0.7):
+        # delete (or re-insert an empty cut over) a stretch inside the focus range, seams inside the marked pieces
+        a = R.int(focus["from"], focus["to"])
+        b = R.int(a, min(focus["to"], a + R.int(0, 3)))
+        sa = R.int(0, len(T))
+        return {"schema": sref, "doc": doc, "src": None, "from": a, "to": b, "sa": sa, "sb": sa}
     if kind == "reinsert":
         frm, to = pick_range(R, dd)
         return {"schema": sref, "doc": doc, "src": None, "from": frm, "to": to, "sa": frm, "sb": to}
